@@ -6,6 +6,7 @@ use std::sync::Arc;
 pub use crate::socket::remote_map::path_state_verif::{
     VerifPathStatus, VerifRemotePathState, VerifSource, verif_prune_non_relay_paths,
 };
+pub use crate::socket::remote_map::verif::VerifRemoteMap;
 pub use crate::socket::{
     remote_map::{PathSelection, PathSelectionContext, PathSelectionData, PathSelector},
     transports::{Addr, AddrKind, FourTuple},
